@@ -63,6 +63,8 @@ type EntryResult struct {
 	WallS       float64               `json:"wall_s"`
 	SolverErrors []string             `json:"solver_errors,omitempty"`
 	MaxDepth    int                   `json:"max_fork_depth"`
+	// path prefixes handed to the other shards of a sharded instance
+	OtherShards int `json:"other_shards,omitempty"`
 	// states left unexplored because the entry already had >= 8 counterexamples stored (entry is red)
 	StoppedAfterViolations int        `json:"stopped_after_violations,omitempty"`
 }
